@@ -599,7 +599,10 @@ def preexp_surface(run, repo, classes):
                 D = I.D
                 T, P = D.sym('T'), D.sym('P')
                 kb, h = D.sym('kb'), D.sym('h')
-                stoich = [C(1), C(2), C(1)]
+                # the coefficients as Reaction.from_string stores them: Python floats - where the interpreter can tell a
+                # float from an int (a number it tags with its Python type); untyped numbers otherwise
+                num = getattr(I, 'pyfloat', C)
+                stoich = [num(1), num(2), num(1)]
                 # nothing is put on the reaction afterwards: what the constructor concludes from the species
                 # (gas-phase step or not) is what get_A works with
                 rxn, sd = surface_step(I, repo, cname, qual, surf_idx, has_ts, stoich, lower=lower)
@@ -697,7 +700,7 @@ def preexp_surface(run, repo, classes):
                 # conditions: a second step in the same interpreter (its own species, sites and coefficients 2, 1, 1,
                 # another number of surface reactants), then the first step once more
                 idx2 = (0,) if surf_idx == (0, 1) else (0, 1)
-                stoich2 = [C(2), C(1), C(1)]
+                stoich2 = [num(2), num(1), num(1)]
                 lower2 = cname == 'ChemkinReaction' and not lower
                 rxn2, sd2 = surface_step(I, repo, cname, qual, idx2, has_ts, stoich2, pre='z', lower=lower2)
                 nsurf2 = sum(int(stoich2[i].const_value()) for i in idx2)
@@ -790,11 +793,13 @@ def check(run, repo):
                      'int/float type in the interpreter, so a coefficient used as a repetition count or index '
                      'without int() is not seen)']
     n = clamp(run, repo)
-    run.floor('clamp instances', n, 110)
+    run.floor('clamp instances', n, 100)
     n = bep_rules(run, repo)
-    run.floor('BEP instances', n, 300)
+    run.floor('BEP instances', n, 200)
     n = preexp(run, repo)
-    run.floor('pre-exponential instances', n, 160)
+    # (a getter that raises is reported and its follow-up questions are not asked: the floor is what remains when every
+    # get_A of both kinetic classes raises)
+    run.floor('pre-exponential instances', n, 100)
 
 
 B_ = 'pmutt/reaction/bep.py'
@@ -877,6 +882,16 @@ MUTANTS = [
      'edits': [(O_, "    def _get_n_surf(self):\n        \"\"\"Counts the number of surface reactants", "    _n_surf_vals = {}\n\n    def _get_n_surf(self):\n        \"\"\"Counts the number of surface reactants"),
                (O_, "        n_surf = 0\n        for species, stoich in zip(self.reactants, self.reactants_stoich):\n            if isinstance(species.phase, InteractingInterface):\n                n_surf += stoich\n        return n_surf", "        try:\n            return self._n_surf_vals['n_surf']\n        except KeyError:\n            pass\n        n_surf = 0\n        for species, stoich in zip(self.reactants, self.reactants_stoich):\n            if isinstance(species.phase, InteractingInterface):\n                n_surf += stoich\n        self._n_surf_vals['n_surf'] = n_surf\n        return n_surf")]},
 ]
+# whitebox3/C09_A4: needs numbers that know their Python type (/tmp/gaps3/REQ3_C09.md item 1: Interp.pyfloat); to be
+# moved into MUTANTS when list repetition by a float is a modelled TypeError.  Not replayed by the self-test
+PENDING_MUTANTS = [
+    {'name': 'Chemkin get_A repeats the site density by the coefficient itself (a float for parsed reactions)',
+     'expect': ('REF.A', 'ChemkinReaction.get_A'),
+     'edits': [(R_, "                    continue\n                site_dens.extend([site_den] * int(stoich))", "                    continue\n                site_dens.extend([site_den] * stoich)")]},
+    {'name': 'Surface get_A repeats the site density by the coefficient itself (a float for parsed reactions)',
+     'expect': ('REF.A', 'SurfaceReaction.get_A'),
+     'edits': [(O_, "                    continue\n                site_dens.extend([site_den] * int(stoich))", "                    continue\n                site_dens.extend([site_den] * stoich)")]},
+]
 # behaviour-preserving rewrites of the same round (whitebox2/C09_B1..B3), reduced: must stay silent
 EQUIV = [
     {'name': 'clamp as nested maximum: max(0, max(barrier, change))',
@@ -885,4 +900,12 @@ EQUIV = [
      'edits': [(O_, "        R_units = '{}/K'.format(units)\n        return self.get_HoRT_act(rev=rev, T=T, **kwargs)*T*c.R(R_units)", "        act = self.transition_state is not None\n        return np.max([\n            0.,\n            super().get_delta_H(units=units, T=T, rev=rev, act=act, **kwargs),\n            super().get_delta_H(units=units, T=T, rev=rev, act=False, **kwargs)\n        ])")]},
     {'name': 'BEP.slope and BEP.intercept as properties over private attributes',
      'edits': [(B_, "    def _get_descriptor_val(self, reaction, **kwargs):", "    @property\n    def slope(self):\n        return self._slope\n\n    @slope.setter\n    def slope(self, val):\n        self._slope = val\n\n    @property\n    def intercept(self):\n        return self._intercept\n\n    @intercept.setter\n    def intercept(self, val):\n        self._intercept = val\n\n    def _get_descriptor_val(self, reaction, **kwargs):")]},
+    # round 3: caches that ARE keyed by everything the answer depends on (the further objects of the round-3 instances
+    # must not turn a correct memo into a finding)
+    {'name': 'Chemkin get_GoRT_act memoised per object on direction and all conditions',
+     'edits': [(R_, "        self.gas_phase = self._is_gas_phase()\n", "        self.gas_phase = self._is_gas_phase()\n        self._GoRT_act_vals = {}\n"),
+               (R_, "        act = self.transition_state is not None\n        return np.max([\n            0.,\n            super().get_delta_GoRT(rev=rev, act=act, **kwargs),\n            super().get_delta_GoRT(rev=rev, act=False, **kwargs)\n        ])", "        key = (rev, frozenset(kwargs.items()))\n        try:\n            return self._GoRT_act_vals[key]\n        except KeyError:\n            pass\n        act = self.transition_state is not None\n        GoRT_act = np.max([\n            0.,\n            super().get_delta_GoRT(rev=rev, act=act, **kwargs),\n            super().get_delta_GoRT(rev=rev, act=False, **kwargs)\n        ])\n        self._GoRT_act_vals[key] = GoRT_act\n        return GoRT_act")]},
+    {'name': 'Chemkin _get_n_surf through a helper that keeps upper()',
+     'edits': [(R_, "            # Skip non-surface species\n            if specie.phase.upper() != 'S':\n                continue\n", "            # Skip non-surface species\n            if not _is_surface_phase(specie.phase):\n                continue\n"),
+               (R_, "def _get_molecularity(stoich):", "def _is_surface_phase(phase):\n    return phase.upper() == 'S'\n\n\ndef _get_molecularity(stoich):")]},
 ]
